@@ -2705,3 +2705,318 @@ func rulePXFileRender(c *Ctx) []Obligation {
 	c.checkArityIndependence(o, f)
 	return o.list
 }
+
+// ---------------------------------------------------------------------------------------------
+// P-REGISTER on paths of the registration function (helpers inlined; validity predicate opaque)
+
+func rulePXRegister(c *Ctx) []Obligation {
+	o := c.newObs("P-REGISTER")
+	reg := c.registerFn()
+	fn := fname(reg)
+	valid, guess := c.role("isValidAlias"), c.role("guessAlias")
+	if valid == nil || guess == nil {
+		o.undecided(fn, "helpers", reg.Pos(), "anchor lost: the validity predicate (a (string) bool File method that ranges over the import table / calls IsReservedWord) or the alias guesser ((string) string) is not called from the registration function")
+		return o.list
+	}
+	_, stdName, _, okStd := c.stdHintsTable()
+	if !okStd {
+		o.undecided(fn, "standard-library table", reg.Pos(), "anchor lost: no constant map[string]string table is read during registration")
+	}
+	imp, hints := "recv."+c.ff("imports"), "recv."+c.ff("hints")
+	nameF, aliasF := c.ff("defname"), c.ff("defalias")
+	opq := map[*ssa.Function]bool{valid: true, guess: true}
+	paths, trunc := c.Paths(reg, PXConfig{MaxVisits: 4, MaxDepth: 4, Opaque: func(f *ssa.Function) bool { return opq[f] }})
+	if trunc || len(paths) == 0 {
+		o.undecided(fn, "path enumeration", reg.Pos(), "%d paths, truncated %v", len(paths), trunc)
+		return o.list
+	}
+	c.stats["register_paths"] = len(paths)
+	t := newTally(o, fn, reg.Pos())
+	storedName := imp + "[p0]." + nameF
+	hintName, hintAlias := hints+"[p0]."+nameF, hints+"[p0]."+aliasF
+	stdTerm := "global:" + stdName + "[p0]"
+	classOf := func(n *T) (class string, base string) {
+		// raw candidates
+		s := n.String()
+		switch {
+		case s == hintName:
+			return "hint", s
+		case s == stdTerm:
+			return "std", s
+		case n.Op == "call" && n.Aux == fname(guess) && len(n.A) == 1 && n.A[0].String() == "p0":
+			return "guess", s
+		}
+		// modified: a template with exactly one raw candidate among its values
+		segs := termTemplate(n)
+		cnt := 0
+		for _, sg := range segs {
+			if sg.Val == nil {
+				continue
+			}
+			vs := sg.Val.String()
+			if vs == hintName || vs == stdTerm || (sg.Val.Op == "call" && sg.Val.Aux == fname(guess)) {
+				cnt++
+				base = vs
+			}
+		}
+		if cnt == 1 && len(segs) > 1 {
+			return "modified", base
+		}
+		if cnt == 1 && len(segs) == 1 {
+			return "hint", base // %s of the raw value
+		}
+		return "other", ""
+	}
+	for _, p := range paths {
+		if p.End != "return" || len(p.Ret) != 1 {
+			t.note("registration returns a name on every path", false, "path %s ends in %s", traceOf(p), p.End)
+			continue
+		}
+		F := p.Facts
+		ret := p.Ret[0]
+		var stores []Ev
+		var lastValid *Ev
+		var rejected []string
+		for i := range p.Events {
+			e := &p.Events[i]
+			switch {
+			case e.Kind == "mapupdate" && e.Recv.String() == imp:
+				stores = append(stores, *e)
+			case e.Kind == "mapupdate" || e.Kind == "store":
+				t.note("registration stores nothing but the import entry", false, "path %s stores to %s", traceOf(p), e.Recv)
+			case e.Kind == "call" && e.Fn == valid:
+				lastValid = e
+				if F.Has(e.Res.String(), false) && len(e.Args) == 2 {
+					rejected = append(rejected, e.Args[1].String())
+				}
+			}
+		}
+		isC := fact3(F, `eq("C",p0)`)
+		switch len(stores) {
+		case 0:
+			switch {
+			case ret.isConst() && ret.String() == `""`:
+				loc := fact3(F, eqAtom("p0", "recv."+c.ff("path")))
+				t.note("the empty qualifier is returned only for the File's own path", loc[1] && loc[0], "path %s returns \"\" (facts %s)", traceOf(p), F)
+			case ret.String() == storedName:
+				ok := F.Has("empty("+storedName+")", false) && F.Has(`eq("_",`+storedName+`)`, false)
+				t.note("a known path returns its stored name — unless that is empty or \"_\"", ok, "path %s returns the stored name without name ≠ \"\" and name ≠ \"_\" established (facts %s): after Anon(path) a reference would be qualified by _", traceOf(p), F)
+			default:
+				t.note("a name is returned only for the local path, a known path, or after registering it", false, "path %s returns %s without storing an entry", traceOf(p), ret)
+			}
+			continue
+		case 1:
+		default:
+			t.note("one entry is stored per registration", false, "path %s stores %d entries", traceOf(p), len(stores))
+			continue
+		}
+		st := stores[0]
+		key, val := st.Args[0], st.Args[1]
+		name, alias := fieldOfTerm(val, nameF, nil), fieldOfTerm(val, aliasF, nil)
+		// first registration wins
+		miss := F.Has("empty("+storedName+")", true) || F.Has(`eq("_",`+storedName+`)`, true)
+		t.note("an entry is stored only after a miss on the import table (first registration wins)", miss, "path %s stores although the path may already be registered (facts %s): a later hint would rename an import already used", traceOf(p), F)
+		// the "C" case
+		if isC[1] && isC[0] {
+			ks := key.String()
+			ok := (ks == `"C"` || ks == "p0") && name.String() == `"C"` && alias.String() == "false" && ret.String() == `"C"`
+			t.note("\"C\" is registered as {\"C\", no alias} and referred to as C — never hinted, prefixed or numbered", ok, "path %s stores {%s, %s} under %s and returns %s", traceOf(p), name, alias, key, ret)
+			continue
+		}
+		t.note("anything but the \"C\" case is registered knowing that the path is not \"C\"", isC[1] && !isC[0], "path %s reaches the general store without having compared the path with \"C\" (the pseudo-package could be aliased, prefixed or numbered)", traceOf(p))
+		t.note("the entry is stored under the path being registered", key.String() == "p0", "path %s stores under %s", traceOf(p), key)
+		// checked = stored = returned
+		okChecked := lastValid != nil && F.Has(lastValid.Res.String(), true) && len(lastValid.Args) == 2 && lastValid.Args[1].String() == name.String()
+		lv := "<none>"
+		if lastValid != nil && len(lastValid.Args) == 2 {
+			lv = lastValid.Args[1].String()
+		}
+		t.note("the name stored is the very name that passed the validity test", okChecked, "path %s stores %s but the last accepted candidate was %s: uniqueness / legality was established for a different string (e.g. prefix applied afterwards)", traceOf(p), name, lv)
+		t.note("the name returned is the name stored", ret.String() == name.String(), "path %s returns %s but stores %s", traceOf(p), ret, name)
+		// coherence of name class and alias flag
+		class, base := classOf(name)
+		aliasTrue := alias.String() == "true" || (alias.String() == hintAlias && F.Has(hintAlias, true))
+		var okCoh bool
+		switch class {
+		case "hint":
+			okCoh = alias.String() == hintAlias || aliasTrue
+		case "std":
+			okCoh = true
+		case "guess", "modified":
+			okCoh = aliasTrue
+		}
+		t.note("a name stored without alias is the raw hint / standard-library name; guessed or modified (prefixed, numbered) names are aliases", okCoh, "path %s stores the %s name %s with alias flag %s not known to be true: the import line would omit the alias although the qualifier is not the package's real name", traceOf(p), class, name, alias)
+		// source of the candidate: hint first, then the standard-library table, then a guess
+		switch base {
+		case hintName:
+			t.note("a hint is used only if one was given", F.Has("empty("+hintName+")", false), "path %s", traceOf(p))
+		case stdTerm:
+			t.note("the standard-library table is used only without a hint", F.Has("empty("+hintName+")", true) && F.Has("empty("+stdTerm+")", false), "path %s (facts %s)", traceOf(p), F)
+		default:
+			if class != "other" {
+				t.note("a name is guessed only without a hint and without a table entry", F.Has("empty("+hintName+")", true) && F.Has("empty("+stdTerm+")", true), "path %s (facts %s)", traceOf(p), F)
+			}
+		}
+		// modifications never touch "."
+		if class == "modified" {
+			notDot := F.Has(`eq(".",`+base+`)`, false) || strings.HasPrefix(base, fname(guess)+"(")
+			for _, rj := range rejected {
+				if rj == base {
+					notDot = true // the unmodified name was rejected, and "." is always accepted
+				}
+			}
+			if !notDot && len(rejected) > 0 {
+				// a modified candidate was rejected earlier: it exists only where the base was already known ≠ "."
+				// (that earlier modification is judged on the path where it is stored)
+				first := rejected[0]
+				if first != base {
+					notDot = false
+				}
+			}
+			t.note("a candidate is modified (prefix / number) only if it is known not to be \".\"", notDot, "path %s stores %s without an established %s ≠ \".\" (facts %s): a dot-import would be rendered as pkg_. or .1", traceOf(p), name, base, F)
+		}
+	}
+	t.require("the name stored is the very name that passed the validity test", "\"C\" is registered as {\"C\", no alias} and referred to as C — never hinted, prefixed or numbered",
+		"a known path returns its stored name — unless that is empty or \"_\"", "an entry is stored only after a miss on the import table (first registration wins)",
+		"a name stored without alias is the raw hint / standard-library name; guessed or modified (prefixed, numbered) names are aliases", "the empty qualifier is returned only for the File's own path")
+	t.flush()
+	return o.list
+}
+
+// ---------------------------------------------------------------------------------------------
+// P-VALIDALIAS / P-LOCALDOT on paths
+
+func rulePXValidAlias(c *Ctx) []Obligation {
+	o := c.newObs("P-VALIDALIAS")
+	f := c.role("isValidAlias")
+	if f == nil {
+		o.undecided("(*jen.File).isValidAlias", "anchor", token.NoPos, "anchor lost: no (string) bool File method called by the registration function that examines the import table / reserved words")
+		return o.list
+	}
+	fn := fname(f)
+	resv := c.jenFunc("IsReservedWord")
+	imp := "recv." + c.ff("imports")
+	nameF := c.ff("defname")
+	paths, trunc := c.Paths(f, PXConfig{MaxVisits: 4, Opaque: func(g *ssa.Function) bool { return g == resv }})
+	if trunc || len(paths) == 0 {
+		o.undecided(fn, "path enumeration", f.Pos(), "%d paths, truncated %v", len(paths), trunc)
+		return o.list
+	}
+	t := newTally(o, fn, f.Pos())
+	for _, p := range paths {
+		if p.End != "return" {
+			t.note("the validity predicate does not panic", false, "path %s", traceOf(p))
+			continue
+		}
+		for _, e := range p.Events {
+			if e.Kind == "store" || e.Kind == "mapupdate" || e.Kind == "write" {
+				t.note("the validity predicate has no effect", false, "path %s: %s on %s", traceOf(p), e.Kind, e.Recv)
+			}
+		}
+		outs, ok := boolOutcomes(p)
+		if !ok {
+			t.note("the result is decided on every path", false, "path %s returns %v", traceOf(p), p.Ret)
+			continue
+		}
+		for _, oc := range outs {
+			F := oc.F
+			dot := fact3(F, `eq(".",p0)`)
+			res3 := [2]bool{}
+			for _, e := range p.Events {
+				if e.Kind == "call" && e.Fn == resv && len(e.Args) == 1 && e.Args[0].String() == "p0" {
+					res3 = fact3(F, e.Res.String())
+				}
+			}
+			// entries examined
+			clash, allDiffer, n := false, true, 0
+			last := ""
+			for _, atom := range p.Order {
+				if strings.HasPrefix(atom, "next(range("+imp+"))@") && strings.HasSuffix(atom, "#0") {
+					if F[atom] {
+						n++
+						nm := strings.TrimSuffix(atom, "#0") + "#2." + nameF
+						e3 := fact3(F, eqAtom("p0", nm))
+						if e3[1] && e3[0] {
+							clash = true
+						}
+						if !(e3[1] && !e3[0]) {
+							allDiffer = false
+						}
+					} else {
+						last = atom
+					}
+				}
+			}
+			exhausted := last != ""
+			if oc.Val {
+				okDot := dot[1] && dot[0]
+				okFree := dot[1] && !dot[0] && res3[1] && !res3[0] && allDiffer && exhausted
+				t.note("a name is accepted only if it is \".\", or not reserved and different from the name of every registered entry", okDot || okFree, "path %s accepts (dot %v, reserved %v, %d entries compared, all differ %v, table exhausted %v; facts %s)", traceOf(p), dot, res3, n, allDiffer, exhausted, F)
+			} else {
+				okRej := !(dot[1] && dot[0]) && dot[1] && ((res3[1] && res3[0]) || clash)
+				t.note("a name is rejected only if it is reserved or equal to a registered name — never \".\"", okRej, "path %s rejects (dot %v, reserved %v, clash %v; facts %s)", traceOf(p), dot, res3, clash, F)
+			}
+		}
+	}
+	t.require("a name is accepted only if it is \".\", or not reserved and different from the name of every registered entry", "a name is rejected only if it is reserved or equal to a registered name — never \".\"")
+	t.flush()
+	c.checkArityIndependence(o, f)
+	return o.list
+}
+
+func rulePXLocalDot(c *Ctx) []Obligation {
+	o := c.newObs("P-LOCALDOT")
+	hints := c.ff("hints")
+	nameF, aliasF := c.ff("defname"), c.ff("defalias")
+	if f := c.role("isLocal"); f != nil {
+		paths, _ := c.Paths(f, PXConfig{})
+		t := newTally(o, fname(f), f.Pos())
+		for _, p := range paths {
+			outs, ok := boolOutcomes(p)
+			if !ok || p.End != "return" {
+				t.note("the local-path test is exactly f.path == path", false, "path %s returns %v", traceOf(p), p.Ret)
+				continue
+			}
+			for _, oc := range outs {
+				e := fact3(oc.F, eqAtom("p0", "recv."+c.ff("path")))
+				// no other fact may have been needed
+				extra := 0
+				for a := range oc.F {
+					if a != eqAtom("p0", "recv."+c.ff("path")) {
+						extra++
+					}
+				}
+				t.note("the local-path test is exactly f.path == path", e[1] && e[0] == oc.Val && extra == 0, "path %s returns %v under %s — a prefix / suffix / case-insensitive comparison would drop the import of a different package", traceOf(p), oc.Val, oc.F)
+			}
+		}
+		t.require("the local-path test is exactly f.path == path")
+		t.flush()
+	} else {
+		o.undecided("(*jen.File).isLocal", "anchor", token.NoPos, "anchor lost")
+	}
+	if f := c.role("isDotImport"); f != nil {
+		paths, _ := c.Paths(f, PXConfig{})
+		t := newTally(o, fname(f), f.Pos())
+		hint := "recv." + hints + "[p0]"
+		for _, p := range paths {
+			outs, ok := boolOutcomes(p)
+			if !ok || p.End != "return" {
+				t.note("the dot-import test is exactly hints[path] = {\".\", alias}", false, "path %s returns %v", traceOf(p), p.Ret)
+				continue
+			}
+			for _, oc := range outs {
+				F := oc.F
+				dotT, dk := and3(fact3(F, `eq(".",`+hint+`.`+nameF+`)`), fact3(F, hint+"."+aliasF))
+				if hf := fact3(F, "has(recv."+hints+",p0)"); hf[1] && !hf[0] {
+					dotT, dk = false, true
+				}
+				t.note("the dot-import test is exactly hints[path] = {\".\", alias}", dk && dotT == oc.Val, "path %s returns %v under %s", traceOf(p), oc.Val, F)
+			}
+		}
+		t.require("the dot-import test is exactly hints[path] = {\".\", alias}")
+		t.flush()
+	} else {
+		o.undecided("(*jen.File).isDotImport", "anchor", token.NoPos, "anchor lost")
+	}
+	return o.list
+}
